@@ -4,7 +4,7 @@ positioned error."""
 from hypothesis import strategies as hs
 
 from dxv import sut, hunks
-from dxv.engine import HypCheck
+from dxv.engine import HypCheck, EnumCheck
 
 ASSUMPTIONS = [
     'a hunk is complete as soon as both sides have seen the number of lines '
@@ -418,6 +418,77 @@ def arbitrary(draw):
             'tolerant': draw(hs.booleans())}
 
 
+BIG = (99, 100, 101, 127, 128, 250, 1000, 4096)
+
+
+def big_chunks(tier, seed):
+    return [(n, shape) for n in BIG for shape in ('+', '-', ' ', 'mix')]
+
+
+def run_big_chunk(chunk, st):
+    """One large hunk (a whole new or deleted file, a long rewrite), whole
+    and cut short by 1, 2, half and all but one of its lines, alone and
+    behind another hunk, both garbage modes."""
+    ns = sut.load()
+    n, shape = chunk
+    body = [[shape if shape != 'mix' else ' +-'[(i * 7 + n) % 3],
+             b'l%d' % i] for i in range(n)]
+    big = {'orig_start': 0 if shape == '+' else 1,
+           'mod_start': 0 if shape == '-' else 1, 'body': body,
+           'context': None, 'omit_one': [False, False]}
+    small = {'orig_start': 5, 'mod_start': 5,
+             'body': [[' ', b'c'], ['-', b'o'], ['+', b'n']],
+             'context': b'ctx', 'omit_one': [False, False]}
+    evals = 0
+
+    for first in (None, small):
+        d = {'pre': [], 'hunks': ([{'hunk': first, 'after': []}]
+                                  if first else []) +
+             [{'hunk': big, 'after': []}]}
+        lines, exp = hunks.diff_lines(d)
+
+        for tolerant in (False, True):
+            result, err = parse(lines, tolerant)
+            evals += 1
+            case = {'big': [n, shape], 'behind': first is not None,
+                    'tolerant': tolerant}
+
+            if err is not None:
+                st.violation('wellformed-diff-raised:%s' % type(err).__name__,
+                             repr(err), case)
+            else:
+                res = compare(result, expected_for(lines, exp, tolerant))
+
+                if res is not None:
+                    st.violation(res[0], res[1], case)
+
+            for cut in (1, 2, n // 2, n - 1):
+                short = lines[:len(lines) - cut]
+                result, err = parse(short, tolerant)
+                evals += 1
+                c = dict(case, cut=cut)
+
+                if err is None:
+                    st.violation('damaged-hunk-accepted:truncate',
+                                 '%d of %d body lines missing; totals +%s -%s'
+                                 % (cut, n, result.get('total_inserts'),
+                                    result.get('total_deletes')), c)
+                elif not isinstance(err, ns.MalformedHunkError):
+                    st.violation('damaged-hunk-wrong-exception:%s'
+                                 % type(err).__name__, repr(err), c)
+                elif err.line_num != len(short) or err.line != short[-1]:
+                    st.violation('error-names-wrong-line',
+                                 'names line %r, the input ends at line %d'
+                                 % (err.line_num, len(short)), c)
+
+    st.bulk(evals, evals, sample={'big': [n, shape]})
+
+
+def run_big_case(case, st):
+    run_big_chunk(tuple(case['big']), st)
+    st.case(case, nontrivial=True)
+
+
 def checks():
     return [
         HypCheck(
@@ -445,4 +516,15 @@ def checks():
             rule='arbitrary lists of byte lines incl. the empty list: a '
                  'result dictionary or MalformedHunkError, nothing else; '
                  'non-trivial = >= 2 lines'),
+        EnumCheck(
+            'big-hunks', big_chunks, run_big_chunk, run_case=run_big_case,
+            exhaustive=False,
+            rule='one hunk of 99..4096 lines (all insertions, all '
+                 'deletions, all context, mixed), alone and behind another '
+                 'hunk, both garbage modes: right geometry when whole; cut '
+                 'short by 1, 2, half and all but one of its lines it must '
+                 'raise MalformedHunkError naming the last line present; '
+                 'all non-trivial',
+            bound={'quick': '8 sizes x 4 shapes x 2 positions x 2 modes x 5 '
+                            'lengths', 'thorough': 'same'}),
     ]
